@@ -17,7 +17,7 @@ RULE = ("ExecReader vs the Lean selector model on (a) selectors derived from the
         "(b) mutated selectors, (c) random strings; recover() around every call (a panic is a violation) and a before/after comparison "
         "of the document; non-trivial = selector with >=2 steps on a document of depth >=2; error cases counted separately")
 
-KEYS = ["a", "b", "c", "users", "name", "tags", "x", "y", "grid", "id", "k_1", "0"]
+KEYS = ["a", "b", "c", "users", "name", "tags", "x", "y", "grid", "id", "k_1", "0", "createdAt", "Name", "2023"]
 
 
 def gen_val(rnd, depth):
